@@ -24,7 +24,8 @@ K = Fraction(10 ** 18, 241)                     # s Hz^2 per (pc cm^-3)
 UN = {"Hz": u.Hz, "kHz": u.kHz, "MHz": u.MHz, "GHz": u.GHz}
 SCALE = {"Hz": 1, "kHz": 10 ** 3, "MHz": 10 ** 6, "GHz": 10 ** 9}
 TUN = {"s": (u.s, Fraction(1)), "ms": (u.ms, Fraction(1, 10 ** 3)), "us": (u.us, Fraction(1, 10 ** 6))}
-DMUN = {"pc/cm3": (u.pc / u.cm ** 3, Fraction(1)), "pc/m3": (u.pc / u.m ** 3, Fraction(1, 10 ** 6))}
+DMUN = {"pc/cm3": (u.pc / u.cm ** 3, Fraction(1)), "pc/m3": (u.pc / u.m ** 3, Fraction(1, 10 ** 6)),
+        "kpc/cm3": (u.kpc / u.cm ** 3, Fraction(1000))}
 SCR = os.path.join(framework.ROOT, ".scratch")
 CLASSES = common.CLASSES
 rat = exact.rat
@@ -229,9 +230,38 @@ def gen_law_case(rnd):
     return case
 
 
+def dm_exact(DM):
+    """exact value in pc cm^-3 of the float a DispersionMeasure holds, whatever (known) unit it is held in"""
+    for un, sc in DMUN.values():
+        if DM.unit == un:
+            return Fraction(float(DM.value)) * sc
+    raise ValueError("unexpected DM unit %r" % DM.unit)
+
+
 def _dm(case):
+    """case["dm"] is the value in unit case["dmu"]; optionally converted with .to(case["dmto"]) and / or
+    built as the negation of the opposite DM (both keep / change the unit the object is held in)"""
     un, sc = DMUN[case.get("dmu", "pc/cm3")]
-    return pb.DM(case["dm"], un), Fraction(float(case["dm"])) * sc
+    v = float(case["dm"])
+    DM = -pb.DM(-v, un) if case.get("dmneg") else pb.DM(v, un)
+    if case.get("dmto"):
+        DM = DM.to(DMUN[case["dmto"]][0])
+    assert isinstance(DM, pb.DispersionMeasure)
+    return DM, dm_exact(DM)
+
+
+def dm_in_units(rnd, case, dm_pc):
+    """hold a DM (given in pc cm^-3) in a randomly chosen equivalent unit / construction path"""
+    for k in ("dmto", "dmneg"):
+        case.pop(k, None)
+    case["dmu"] = rnd.choice(["pc/cm3", "pc/cm3", "pc/m3", "kpc/cm3"])
+    case["dm"] = float(Fraction(float(dm_pc)) / DMUN[case["dmu"]][1])
+    r = rnd.random()
+    if r < 0.2:
+        case["dmto"] = rnd.choice(list(DMUN))
+    elif r < 0.35:
+        case["dmneg"] = True
+    return case
 
 
 def _fq_fields(p, pre):
@@ -487,7 +517,23 @@ def gen_incoh_case(rnd, i):
 
 # ================================================================== C05: chirp and coherent dedispersion
 def cfix_list(a):
-    return [exact.cfix(complex(x)) for x in np.asarray(a).ravel()]
+    """exact 60-bit pairs; a non-finite sample is logged as 0 (the event's `finite` flag reports it)"""
+    return [exact.cfix(complex(x)) if np.isfinite(x) else exact.cfix(0) for x in np.asarray(a).ravel()]
+
+
+def all_finite(*arrays):
+    return bool(all(np.all(np.isfinite(np.asarray(a))) for a in arrays))
+
+
+INF = {"float": lambda: np.inf, "MHz": lambda: np.inf * u.MHz, "Hz": lambda: np.inf * u.Hz}
+
+
+def ref_fields(ref):
+    """fref / rinf of an event from the reference actually passed"""
+    v = ref.value if isinstance(ref, u.Quantity) else ref
+    if np.isinf(v):
+        return {"fref": rat(1), "rinf": True}
+    return {"fref": rat(common.hz(ref)), "rinf": False}
 
 
 def pick_band(rnd, nchan):
@@ -518,24 +564,27 @@ def gen_chirpfn_case(rnd, full=False):
     tun = rnd.choice(["s", "s", "ms", "us"])
     dtv = float(1 / Fraction(rate) / TUN[tun][1])
     lo, hi = fc - rate / 2, fc + rate / 2
-    mode = rnd.choice(["center", "inside", "edge", "below", "above"])
-    ref = {"center": fc, "inside": fc + rnd.uniform(-0.5, 0.5) * rate, "edge": rnd.choice([lo, hi]),
+    mode = rnd.choice(["center", "inside", "edge", "below", "above", "inf"])
+    ref = {"inf": fc, "center": fc, "inside": fc + rnd.uniform(-0.5, 0.5) * rate, "edge": rnd.choice([lo, hi]),
            "below": lo * rnd.uniform(0.3, 0.95), "above": hi * rnd.uniform(1.05, 3)}[mode]
     fcq = in_unit(fc, rnd.choice(list(UN)))
-    return {"kind": "chirpfn", "N": N, "dt": [dtv, tun], "cf": fcq,
+    case = {"kind": "chirpfn", "N": N, "dt": [dtv, tun], "cf": fcq,
             "ref": fcq if mode == "center" else in_unit(ref, rnd.choice(list(UN))),
-            "dm": rnd.choice([-1, 1]) * logu(rnd, 1e-4, 1e3), "dmu": "pc/cm3", "dask": rnd.random() < 0.25,
-            "bins": pick_bins(rnd, N, full), "mode": mode}
+            "dask": rnd.random() < 0.25, "bins": pick_bins(rnd, N, full), "mode": mode}
+    if mode == "inf":
+        case["ref"], case["inf"] = None, rnd.choice(list(INF))
+    return dm_in_units(rnd, case, rnd.choice([-1, 1]) * logu(rnd, 1e-4, 1e3))
 
 
 def run_chirpfn_case(case, DM=None):
     if DM is None:
         DM, dmx = _dm(case)
     else:
-        dmx = Fraction(dm_value(DM))
+        dmx = dm_exact(DM)
     tu, tsc = TUN[case["dt"][1]]
     dt = float(case["dt"][0]) * tu
-    ch = DM.chirp_function(case["N"], dt, Q(case["cf"]), Q(case["ref"]), use_dask=bool(case["dask"]))
+    ref = INF[case["inf"]]() if case.get("ref") is None else Q(case["ref"])
+    ch = DM.chirp_function(case["N"], dt, Q(case["cf"]), ref, use_dask=bool(case["dask"]))
     if case["dask"]:
         assert isinstance(ch, da.Array)
         ch = ch.compute(scheduler="synchronous")
@@ -543,10 +592,12 @@ def run_chirpfn_case(case, DM=None):
     ok = ch.shape == (case["N"],) and ch.dtype.kind == "c"
     ks = case["bins"]
     return [{"ev": "chirp", "dm": rat(dmx), "N": case["N"], "dt": rat(Fraction(float(case["dt"][0])) * tsc),
-             "fc": rat(QX(case["cf"])), "fref": rat(QX(case["ref"])), "ks": ks, "xcheck": case.get("xcheck", -1),
+             "fc": rat(QX(case["cf"])), "ks": ks, "xcheck": case.get("xcheck", -1), **ref_fields(ref),
+             "finite": all_finite(ch),
              "vals": cfix_list(ch[ks]) if ok else [exact.cfix(0)] * len(ks), "_cost": 0.05 * len(ks),
-             "_desc": "DM(%r).chirp_function(%d, %r, %r, %r, use_dask=%r) shape %r dtype %s"
-                      % (case["dm"], case["N"], case["dt"], case["cf"], case["ref"], case["dask"], ch.shape, ch.dtype)}]
+             "_desc": "DM(%s).chirp_function(%d, %r, %r, %r, use_dask=%r) shape %r dtype %s"
+                      % ("%r %s" % (float(DM.value), DM.unit), case["N"], case["dt"], case["cf"], case.get("ref") or "inf (%s)" % case.get("inf"),
+                         case["dask"], ch.shape, ch.dtype)}]
 
 
 def bb_signal(case, data):
@@ -564,6 +615,9 @@ def bb_shape(case):
 def ref_of(case, z):
     """(ref Quantity, kwargs for the call, refis)"""
     m = case["refmode"]
+    if m == "inf":
+        r = INF[case.get("inf", "float")]()
+        return r, {"ref_freq": r}, ""
     if m == "none":
         return z.center_freq, {}, ""
     if m == "top":
@@ -576,10 +630,11 @@ def ref_of(case, z):
 
 def edge_delays(z, dmx, ref, refis):
     """generator-side only: exact band-edge sample delays"""
-    rate, rx = common.hz(z.sample_rate), common.hz(ref)
+    rate = common.hz(z.sample_rate)
+    ir2 = 0 if ref_fields(ref)["rinf"] else 1 / common.hz(ref) ** 2
     out = []
     for name, f in (("top", common.hz(z.max_freq)), ("bot", common.hz(z.min_freq))):
-        out.append(Fraction(0) if refis == name else K * dmx * (1 / (f * f) - 1 / (rx * rx)) * rate)
+        out.append(Fraction(0) if refis == name else K * dmx * (1 / (f * f) - ir2) * rate)
     return out
 
 
@@ -601,8 +656,10 @@ def gen_bb_case(rnd, kind, Ns, span=None, decades=False, nchans=(1, 2, 3, 4)):
             case.update({k: v for k, v in pick_chunks(rnd, N, nchan).items() if k == "fchunks"})
         z = bb_signal(case, np.zeros(bb_shape(case), case["dtype"]))
         lo, hi = float(common.hz(z.min_freq)), float(common.hz(z.max_freq))
-        mode = rnd.choice(["none", "top", "bot", "inside", "below", "above"])
-        case["refmode"] = mode if mode in ("none", "top", "bot") else "value"
+        mode = rnd.choice(["none", "top", "bot", "inside", "below", "above", "inf"])
+        case["refmode"] = mode if mode in ("none", "top", "bot", "inf") else "value"
+        if mode == "inf":
+            case["inf"] = rnd.choice(list(INF))
         if case["refmode"] == "value":
             ref = {"inside": lo + rnd.uniform(0.02, 0.98) * (hi - lo), "below": lo * rnd.uniform(0.3, 0.95),
                    "above": hi * rnd.uniform(1.05, 3)}[mode]
@@ -610,16 +667,17 @@ def gen_bb_case(rnd, kind, Ns, span=None, decades=False, nchans=(1, 2, 3, 4)):
         case["mode"] = mode
         ref, _, refis = ref_of(case, z)
         if decades:
-            case["dm"] = rnd.choice([-1, 1]) * logu(rnd, 1e-4, 1e3)
+            dm_pc = rnd.choice([-1, 1]) * logu(rnd, 1e-4, 1e3)
         else:
             unit = edge_delays(z, Fraction(1), ref, refis)
             w = max(abs(x) for x in unit)
             sp = span(rnd, N) if span else rnd.uniform(0, 1.2) * N
-            case["dm"] = float(rnd.choice([-1, 1]) * Fraction(sp) / w)
-        d = edge_delays(z, Fraction(float(case["dm"])), ref, refis)
-        if any(x != 0 and abs(x - round(x)) < Fraction(1, 1000) for x in d):
+            dm_pc = float(rnd.choice([-1, 1]) * Fraction(sp) / w)
+        if not (1e-300 < abs(dm_pc) < 1e12):
             continue
-        if not (1e-300 < abs(case["dm"]) < 1e12):
+        dm_in_units(rnd, case, dm_pc)
+        d = edge_delays(z, _dm(case)[1], ref, refis)
+        if any(x != 0 and abs(x - round(x)) < Fraction(1, 1000) for x in d):
             continue
         return case
     raise RuntimeError("no baseband case found")
@@ -628,7 +686,7 @@ def gen_bb_case(rnd, kind, Ns, span=None, decades=False, nchans=(1, 2, 3, 4)):
 def crop_fields(case, z, y, ref, refis, dmx):
     e = {"dm": rat(dmx), "N": case["N"], "rate": rat(common.hz(z.sample_rate)),
          "dt": rat(Fraction(float(z.dt.to_value(u.s)))), "top": rat(common.hz(z.max_freq)),
-         "bot": rat(common.hz(z.min_freq)), "fref": rat(common.hz(ref)), "refis": refis,
+         "bot": rat(common.hz(z.min_freq)), "refis": refis, **ref_fields(ref), "finite": all_finite(compute(y)),
          "fq": [rat(x) for x in common.hz(z.channel_freqs)],
          "outlen": int(y.shape[0]), "zin": meta_rec(z), "zout": meta_rec(y), "xcheck": bool(case.get("xcheck"))}
     e.update(start_fields(z, y))
@@ -638,7 +696,10 @@ def crop_fields(case, z, y, ref, refis, dmx):
 def describe(case):
     return ("%s N=%d nchan=%d %s trail=%r %s%s rate=%r fc=%r DM=%r ref=%s%r"
             % (case.get("cls"), case["N"], case["nchan"], case["align"], case["trail"], case["dtype"],
-               " dask" if case.get("dask") else "", case["rate"], case["cf"], case["dm"], case["refmode"], case.get("ref")))
+               " dask" if case.get("dask") else "", case["rate"], case["cf"],
+               "%r %s%s%s" % (case["dm"], case.get("dmu"), " .to(%s)" % case["dmto"] if case.get("dmto") else "",
+                              " negated" if case.get("dmneg") else ""),
+               case["refmode"], case.get("ref") or case.get("inf")))
 
 
 def supplied_event(case, z, DM, kw, y1, o1):
@@ -651,6 +712,8 @@ def supplied_event(case, z, DM, kw, y1, o1):
     same = o1.shape == o2.shape
     scale = float(np.max(np.abs(compute(z)))) if z.data.size else 0.0
     md = float(np.max(np.abs(o1 - o2))) if same and o1.size else 0.0
+    if not np.isfinite(md):
+        md = 1e300
     t1, t2 = y1.start_time, y2.start_time
     return {"ev": "supplied", "samelen": bool(same),
             "samestart": (t1 is None and t2 is None) or (t1 is not None and t2 is not None and
@@ -677,7 +740,7 @@ def run_chirpsig_case(case):
     ks = case["bins"]
     for c, f in enumerate(common.hz(z.channel_freqs)):
         evs.append({"ev": "chirp", "dm": rat(dmx), "N": case["N"], "dt": rat(Fraction(float(z.dt.to_value(u.s)))),
-                    "fc": rat(f), "fref": rat(common.hz(ref)), "ks": ks,
+                    "fc": rat(f), "ks": ks, **ref_fields(ref), "finite": all_finite(ch),
                     "xcheck": case.get("xcheck", -1) if c == 0 else -1,
                     "vals": cfix_list(ch.reshape(case["N"], case["nchan"])[ks, c]) if ok else [exact.cfix(0)] * len(ks),
                     "_cost": 0.05 * len(ks),
@@ -824,6 +887,7 @@ def run_roundtrip_case(case):
     nz = np.nonzero(np.max(np.abs(x3), axis=(1, 2)) > 1e-9 * scale)[0]
     e = crop_fields(case, z, y, ref, refis, dmx)
     s1, s2 = start_fields(z, y), start_fields(z, w)
+    e["finite"] = e["finite"] and all_finite(ow)
     e.update(ev="roundtrip", len1=int(len(y)), len2=int(len(w)), adv1=s1["adv"], adv2=s2["adv"],
              advtol=s2["advtol"], hasT=s1["hasT"] and s1["outT"] and s2["outT"],
              x=[cfix_list(x3[:, c, t]) for c, t in rows], w=[cfix_list(w3[:, c, t]) for c, t in rows],
@@ -840,11 +904,13 @@ def dm_value(DM):
     return float(DM.to_value(PCC))
 
 
-def mutate_dm(DM, op, target):
-    """bring a DispersionMeasure to (about) `target`: a new object, or the SAME object changed in place"""
+def mutate_dm(DM, op, target, dmu="pc/cm3"):
+    """bring a DispersionMeasure to (about) `target` pc cm^-3: a new object (held in unit dmu), or the
+    SAME object changed in place"""
     cur = None if DM is None else dm_value(DM)
     if op == "new" or DM is None:
-        return pb.DM(float(target))
+        un, sc = DMUN[dmu]
+        return pb.DM(float(Fraction(float(target)) / sc), un)
     if op == "iadd":
         DM += (float(target) - cur) * PCC
     elif op == "isub":
@@ -858,12 +924,12 @@ def mutate_dm(DM, op, target):
     return DM
 
 
-def dm_walk(steps):
-    """the values a DM object really holds along a list of (op, target) steps"""
+def dm_walk(steps, dmu="pc/cm3"):
+    """the values (pc cm^-3) a DM object really holds along a list of (op, target) steps"""
     DM, out = None, []
     for op, target in steps:
-        DM = mutate_dm(DM, op, target)
-        out.append(dm_value(DM))
+        DM = mutate_dm(DM, op, target, dmu)
+        out.append(float(dm_exact(DM)))
     return out
 
 
@@ -878,20 +944,20 @@ def nearby_dm(rnd, v):
     return v * (1 + s)
 
 
-def gen_dm_steps(rnd, v0, ok, k):
+def gen_dm_steps(rnd, v0, ok, k, dmu="pc/cm3"):
     """k (op, target) steps starting with a new object at v0; ok(value) says whether a DM value is usable
     (away from rounding / ceiling boundaries); the first value is repeated at the end"""
     steps = [("new", v0)]
     for i in range(k - 1):
         for _ in range(30):
             op = rnd.choice(["iadd", "isub", "imul", "set", "neg", "new", "iadd"])
-            cur = dm_walk(steps)[-1]
+            cur = dm_walk(steps, dmu)[-1]
             r = rnd.random()
             target = -cur if op == "neg" else nearby_dm(rnd, cur) if r < 0.6 else \
                 cur * rnd.uniform(0.3, 1.7) if r < 0.9 else nearby_dm(rnd, 0.0)
             if i == k - 2:
                 op, target = rnd.choice(["set", "iadd", "new"]), v0
-            got = dm_walk(steps + [(op, target)])[-1]
+            got = dm_walk(steps + [(op, target)], dmu)[-1]
             if ok(got):
                 steps.append((op, target))
                 break
@@ -902,18 +968,19 @@ def gen_lawseq_case(rnd):
     base = gen_law_case(rnd)
     while "chain" in base:
         base = gen_law_case(rnd)
-    base["dmu"] = "pc/cm3"
-    return {"kind": "lawseq", "base": base, "steps": gen_dm_steps(rnd, base["dm"], lambda v: True, rnd.randint(3, 6))}
+    dmu = rnd.choice(list(DMUN))
+    v0 = float(_dm(base)[1])
+    return {"kind": "lawseq", "base": base, "dmu": dmu, "steps": gen_dm_steps(rnd, v0, lambda v: True, rnd.randint(3, 6), dmu)}
 
 
 def run_lawseq_case(case):
     """time_delay / sample_delay with ONE DispersionMeasure object stepped in place between the calls"""
     evs, DM = [], None
     for i, (op, target) in enumerate(case["steps"]):
-        DM = mutate_dm(DM, op, target)
-        c = dict(case["base"], dm=dm_value(DM))
+        DM = mutate_dm(DM, op, target, case.get("dmu", "pc/cm3"))
+        c = dict(case["base"], dm=float(DM.value), dmu=str(DM.unit))
         c.pop("fvec", None)
-        for e in _law_events(c, DM, Fraction(dm_value(DM))):
+        for e in _law_events(c, DM, dm_exact(DM)):
             e["_desc"] = "step %d (%s): %s" % (i, op, e["_desc"])
             evs.append(e)
     return evs
@@ -929,7 +996,8 @@ def gen_incohseq_case(rnd, i):
         dx = exact_delays(z, Fraction(float(v)), ref)
         return max(abs(d) for d in dx) < 1e8 and \
             not any(abs(abs(d - math.floor(d)) - Fraction(1, 2)) < Fraction(1, 1000) for d in dx)
-    return {"kind": "incohseq", "base": base, "steps": gen_dm_steps(rnd, base["dm"], ok, rnd.randint(3, 5))}
+    dmu = rnd.choice(list(DMUN))
+    return {"kind": "incohseq", "base": base, "dmu": dmu, "steps": gen_dm_steps(rnd, base["dm"], ok, rnd.randint(3, 5), dmu)}
 
 
 def run_incohseq_case(case):
@@ -939,10 +1007,10 @@ def run_incohseq_case(case):
     z, _ = incoh_signal(base)
     evs, DM = [], None
     for i, (op, target) in enumerate(case["steps"]):
-        DM = mutate_dm(DM, op, target)
-        evs.append(incoh_event(base, z, DM, Fraction(dm_value(DM)), base.get("ref"), "call %d on one signal (%s): " % (i, op)))
+        DM = mutate_dm(DM, op, target, case.get("dmu", "pc/cm3"))
+        evs.append(incoh_event(base, z, DM, dm_exact(DM), base.get("ref"), "call %d on one signal (%s): " % (i, op)))
     z2, _ = incoh_signal(base)
-    evs.append(incoh_event(base, z2, DM, Fraction(dm_value(DM)), base.get("ref"), "fresh copy of the signal: "))
+    evs.append(incoh_event(base, z2, DM, dm_exact(DM), base.get("ref"), "fresh copy of the signal: "))
     return evs
 
 
@@ -955,18 +1023,20 @@ def gen_chirpseq_case(rnd, full=False):
         base["cf"] = in_unit(fc, rnd.choice(list(UN)))
         base["dt"] = [float(1 / Fraction(rate)), "s"]
         base["ref"] = in_unit(rnd.choice([fc - rate / 2, fc + rate / 2, 0.7 * fc, 1.6 * fc]), rnd.choice(list(UN)))
+    v0 = float(_dm(base)[1])
     if rnd.random() < 0.5:
-        base["dm"] = round(base["dm"], 4) if rnd.random() < 0.7 else 0.0
+        v0 = round(v0, 4) if rnd.random() < 0.7 else 0.0
     if len(base["bins"]) > 6:
         base["bins"] = sorted(rnd.sample(base["bins"], 6))
-    return {"kind": "chirpseq", "base": base, "steps": gen_dm_steps(rnd, base["dm"], lambda v: True, rnd.randint(3, 5))}
+    dmu = rnd.choice(list(DMUN))
+    return {"kind": "chirpseq", "base": base, "dmu": dmu, "steps": gen_dm_steps(rnd, v0, lambda v: True, rnd.randint(3, 5), dmu)}
 
 
 def run_chirpseq_case(case):
     evs, DM = [], None
     for i, (op, target) in enumerate(case["steps"]):
-        DM = mutate_dm(DM, op, target)
-        for e in run_chirpfn_case(dict(case["base"], dm=dm_value(DM)), DM):
+        DM = mutate_dm(DM, op, target, case.get("dmu", "pc/cm3"))
+        for e in run_chirpfn_case(case["base"], DM):
             e["_desc"] = "call %d on one geometry (%s): %s" % (i, op, e["_desc"])
             evs.append(e)
     return evs
@@ -980,7 +1050,8 @@ def gen_toneseq_case(rnd, Ns):
     def ok(v):
         d = edge_delays(z, Fraction(float(v)), ref, refis)
         return not any(x != 0 and abs(x - round(x)) < Fraction(1, 1000) for x in d)
-    return {"kind": "toneseq", "base": base, "steps": gen_dm_steps(rnd, base["dm"], ok, 3)}
+    dmu = rnd.choice(list(DMUN))
+    return {"kind": "toneseq", "base": base, "dmu": dmu, "steps": gen_dm_steps(rnd, float(_dm(base)[1]), ok, 3, dmu)}
 
 
 def run_toneseq_case(case):
@@ -989,15 +1060,78 @@ def run_toneseq_case(case):
     z, data, ks = tone_signal(base)
     evs, DM = [], None
     for i, (op, target) in enumerate(case["steps"]):
-        DM = mutate_dm(DM, op, target)
-        e, kw, y, o = tone_event(base, z, data, ks, DM, Fraction(dm_value(DM)), "call %d on one signal (%s): " % (i, op))
+        DM = mutate_dm(DM, op, target, case.get("dmu", "pc/cm3"))
+        e, kw, y, o = tone_event(base, z, data, ks, DM, dm_exact(DM), "call %d on one signal (%s): " % (i, op))
         evs.append(e)
         if i == 1:
             evs.append(supplied_event(base, z, DM, kw, y, o))
     return evs
 
 
-RUNNERS = {"lawseq": run_lawseq_case, "incohseq": run_incohseq_case, "chirpseq": run_chirpseq_case,
+def arg_hash(x):
+    """bytes + unit of an argument, to see whether a call changed what it was given"""
+    import hashlib
+    if isinstance(x, u.Quantity):
+        return str(x.unit) + ":" + hashlib.blake2b(np.ascontiguousarray(x.value).tobytes(), digest_size=8).hexdigest()
+    return "plain:" + hashlib.blake2b(np.ascontiguousarray(np.asarray(x)).tobytes(), digest_size=8).hexdigest()
+
+
+def gen_lawarr_case(rnd):
+    """frequency ARRAYS (float64 Quantity in Hz / kHz / MHz / GHz) handed to several calls as the same objects"""
+    def arr():
+        unit = rnd.choice(["MHz", "MHz", "Hz", "kHz", "GHz"])
+        return [[float(logu(rnd, 1e7, 3e10) / SCALE[unit]) for _ in range(rnd.randint(1, 5))], unit]
+    case = {"kind": "lawarr", "fa": arr(), "ra": arr() if rnd.random() < 0.4 else None,
+            "rs": in_unit(logu(rnd, 1e7, 3e10), rnd.choice(list(UN))) if rnd.random() < 0.85 else None,
+            "rate": in_unit(logu(rnd, 1e3, 1e8), rnd.choice(["Hz", "kHz", "MHz"])), "steps": []}
+    if case["ra"] is not None:
+        case["ra"][0] = (case["ra"][0] * 5)[:len(case["fa"][0])]          # same length: elementwise
+    for _ in range(rnd.randint(2, 4)):
+        case["steps"].append({"dm": rnd.choice([-1, 1]) * logu(rnd, 1e-4, 1e3), "dmu": rnd.choice(list(DMUN)),
+                              "swap": rnd.random() < 0.3, "ref": "array" if case["ra"] is not None and rnd.random() < 0.5 else "scalar",
+                              "sdelay": rnd.random() < 0.5})
+    return case
+
+
+def run_lawarr_case(case):
+    """every call is judged against the values the caller's arrays held BEFORE the first call"""
+    fq = np.array(case["fa"][0], dtype=np.float64) * UN[case["fa"][1]]
+    rq = None if case["ra"] is None else np.array(case["ra"][0], dtype=np.float64) * UN[case["ra"][1]]
+    rs = np.inf if case["rs"] is None else Q(case["rs"])
+    rate = Q(case["rate"])
+    intended = {"f": [[v, case["fa"][1]] for v in case["fa"][0]],
+                "ra": None if rq is None else [[v, case["ra"][1]] for v in case["ra"][0]]}
+    evs = []
+    for i, st in enumerate(case["steps"]):
+        DM, dmx = _dm(st)
+        ref = rq if st["ref"] == "array" and rq is not None else rs
+        refp = intended["ra"] if ref is rq else [case["rs"]] * len(intended["f"])
+        a, b = (ref, fq) if st["swap"] else (fq, ref)
+        pa, pb_ = (refp, intended["f"]) if st["swap"] else (intended["f"], refp)
+        args = [a, b, rate, DM]
+        before = [arg_hash(x) for x in args]
+        t = DM.sample_delay(a, b, rate) if st["sdelay"] else DM.time_delay(a, b)
+        after = [arg_hash(x) for x in args]
+        what = "call %d of a session on the same frequency arrays: %s(%s %r, %s %r) DM=%r %s" % (
+            i, "sample_delay" if st["sdelay"] else "time_delay", "ref" if st["swap"] else "f", case["fa"],
+            "f" if st["swap"] else "ref", case["ra"] if ref is rq else case["rs"], st["dm"], st["dmu"])
+        evs.append({"ev": "lawargs", "before": before, "after": after, "_cost": 0.005,
+                    "_desc": what + ": arguments (f, ref, rate, DM) %r -> %r" % (before, after)})
+        vals = np.atleast_1d(np.asarray(t if st["sdelay"] else t.to_value(u.s), dtype=np.float64))
+        vals = np.broadcast_to(vals, (len(intended["f"]),))
+        for j, o in enumerate(vals):
+            e = {"dm": rat(dmx), "_cost": 0.01, "_desc": what + " element %d = %r" % (j, float(o))}
+            e.update(_fq_fields(pa[j], "f"))
+            e.update(_fq_fields(pb_[j], "r"))
+            if st["sdelay"]:
+                e.update(ev="sdelay", out=rat(float(o)), rate=rat(float(case["rate"][0])), rates=rat(SCALE[case["rate"][1]]))
+            else:
+                e.update(ev="tdelay", out=rat(float(o)))
+            evs.append(e)
+    return evs
+
+
+RUNNERS = {"lawarr": run_lawarr_case, "lawseq": run_lawseq_case, "incohseq": run_incohseq_case, "chirpseq": run_chirpseq_case,
            "toneseq": run_toneseq_case, "law": run_law_case, "incoh": run_incoh_case, "chirpfn": run_chirpfn_case, "chirpsig": run_chirpsig_case,
            "crop": run_crop_case, "tone": run_tone_case, "cohdd": run_cohdd_case, "roundtrip": run_roundtrip_case}
 
